@@ -12,7 +12,9 @@ Case grammar: see harness/bounded_h.cpp.  Two kinds of cases:
          nesting -- sent by hostile clients, partly while they do not read.
 In both streams the property's own statement is evaluated after every op: the witness (client 0) sends a PING and must
 get its PONG back within a fixed number of event-loop turns; a handler that does not return trips the watchdog (20 s); an op
-that burns more than 2 s of process CPU time (ordinary ops: < 0.1 s) is reported as a slow handler.
+that burns more than 2 s of process CPU time (ordinary ops: < 0.1 s) or whose malloc() calls add up to more than 32 MB (ordinary
+ops: < 1 MB; counted with the sanitizer's malloc hook, independent of the machine's load) is reported as a slow handler /
+resource hog.
 Known finding F60 (regcomp bomb) is re-confirmed by a calibrated small bomb in the quick tier and by the full-size one in the
 thorough tier (see BOMB_* below).
 """
@@ -588,8 +590,9 @@ def directed_flood(names):
 # Finding F60 (regcomp bomb; known finding): StringMatcher::SetPattern hands client patterns to regcomp() unrestricted; glibc
 # expands interval expressions by repetition and nested ones multiply.  Full size: the 31-byte clause BOMB_FULL keeps the
 # (single-threaded) server inside regcomp() for ~2 minutes and 2-5 GB (ASan build) -- nobody's ping is answered meanwhile.
-# The quick tier re-confirms the finding with a calibrated small bomb (measured on the ASan build: ~6-8 s of process CPU time,
-# < 250 MB) that trips the harness's per-op CPU budget (2 s; ordinary ops stay below 0.1 s); the thorough tier and
+# The quick tier re-confirms the finding with a calibrated small bomb (measured on the ASan build: 108 MB of malloc() volume in
+# one op, ~205 MB resident, 1-10 s of process CPU time depending on the machine's load) that trips the harness's per-op
+# malloc-volume budget (32 MB, load-independent; ordinary ops stay below 1 MB) or its CPU budget (2 s); the thorough tier and
 # C07_REGEX_BOMB=1 use the full size, which the 20 s watchdog kills and reports.  C07_REGEX_BOMB=0 leaves the cases out.
 # The cases are generated only while known_findings.json lists the finding (match "regcomp-bomb") or on request.
 BOMB_FULL = "`(((a{1,100}){1,100}){1,100})"
@@ -657,7 +660,10 @@ class CHECK(vlib.Check):
             "EVERY op the Messages received per client, the outgoing queue of every non-reading session, the tree with subscriber tables and "
             "the subscription entries are compared with the extracted model.  flood stream: arbitrary structurally valid Messages (oracle only).  "
             "After every op of both streams the witness's PING must be answered within 40 event-loop turns; a watchdog turns a hang into a "
-            "failure; more than 2 s of process CPU time for one op is a slow-handler failure.  Non-trivial = a jettison / data-tree / batch command issued while a non-reading client has queued replies, or a flood "
+            "failure; more than 2 s of process CPU time or more than 32 MB of malloc volume for one op is a slow-handler / resource-hog failure.  "
+            "Streams flood-typed (every what-code x every reserved PR_NAME_* x right/wrong types, empty and multiple values) and "
+            "flood-queue-pairs (reply-producing command + queue-editing command of the same client: in one BATCH, across reads while it "
+            "does not drain) are enumerated, not sampled.  Non-trivial = a jettison / data-tree / batch command issued while a non-reading client has queued replies, or a flood "
             "case with degenerate patterns or archived filters.")
 
     def gen_cases(self, rng, tier):
